@@ -359,7 +359,11 @@ class Negative(Term):
         return self.term.is_aggregate
 
     def get_sql(self, ctx: SqlContext) -> str:
-        return "-{term}".format(term=self.term.get_sql(ctx))
+        term_sql = self.term.get_sql(ctx)
+        if isinstance(self.term, ArithmeticExpression) or term_sql.startswith("-"):
+            # -(a+b) must not become -a+b, and -(-a) must not become the comment opener --a
+            term_sql = "({})".format(term_sql)
+        return "-{term}".format(term=term_sql)
 
 
 class ValueWrapper(Term):
@@ -1164,14 +1168,17 @@ class ArithmeticExpression(Term):
     def get_sql(self, ctx: SqlContext) -> str:
         left_op, right_op = [getattr(side, "operator", None) for side in [self.left, self.right]]
 
+        right_sql = self.right.get_sql(ctx)
+        # a-(-1) must not become a--1 (a comment opener)
+        right_parens = self.right_needs_parens(self.operator, right_op) or (
+            self.operator == Arithmetic.sub and right_sql.startswith("-")
+        )
         arithmetic_sql = "{left}{operator}{right}".format(
             operator=self.operator.value,
             left=("({})" if self.left_needs_parens(self.operator, left_op) else "{}").format(
                 self.left.get_sql(ctx)
             ),
-            right=("({})" if self.right_needs_parens(self.operator, right_op) else "{}").format(
-                self.right.get_sql(ctx)
-            ),
+            right=("({})" if right_parens else "{}").format(right_sql),
         )
 
         if ctx.with_alias:
